@@ -449,6 +449,7 @@ public:
         J.attribute("k", "other");
         J.attribute("cls", E->getStmtClassName());
         J.attribute("t", ty(E->getType()));
+        if (isa<OffsetOfExpr>(E)) tryConst(E);   // offsetof(T, f): a compile-time constant
         J.attributeArray("ch", [&] {
           for (const Stmt *C : E->children()) {
             if (auto *CE = dyn_cast_or_null<Expr>(C)) expr(CE);
